@@ -277,6 +277,7 @@ CHECKS = {
             T('MC_Wire', 'Wire.cfg', workers=4),
             C('wire', 'TestWire', 'TraceWire', n={'quick': 60, 'thorough': 800}, trivial_len=3),
             C('wirestall', 'TestWireStall', 'TraceWire', trivial_len=0),
+            C('errors', 'TestErrorsReal', 'TraceErrors', trivial_len=3),
             C('handshaker', 'TestHandshaker', 'TraceHandshaker', trivial_len=3, n={'quick': 40, 'thorough': 600}),
             C('wirereal', 'TestWireReal', 'TraceWire', trivial_len=3),
             R('xreq', 'xreq'), R('xsurveyor', 'xsurveyor'), R('xpair1', 'xpair1'), R('xstar', 'xstar'), R('xbus', 'xbus'),
